@@ -126,8 +126,8 @@ def call_helper_name(call):
 
 
 class _Inliner:
-    def __init__(self, repo, f, depth):
-        self.repo, self.f, self.depth = repo, f, depth
+    def __init__(self, repo, f, depth, kinds=("nested", "private", "method")):
+        self.repo, self.f, self.depth, self.kinds = repo, f, depth, kinds
         self.counter = 0
         self.changed = False
         self.expansions = {}
@@ -151,6 +151,8 @@ class _Inliner:
         nested = any(g is h for hs in getattr(self.f, "nested_all", {}).values() for h in hs)
         private = g.module is self.f.module and g.cls is None and g.name.startswith("_") and getattr(g, "parent", None) is None
         if not (nested or private or own_method) or g is self.f or g.qname in stack:
+            return None
+        if not ((nested and "nested" in self.kinds) or (private and "private" in self.kinds) or (own_method and "method" in self.kinds)):
             return None
         a = g.node.args
         if a.kwarg or g.node.decorator_list:
@@ -437,15 +439,15 @@ class _Inliner:
         return out
 
 
-def inlined(repo, f, depth: int = 2) -> ast.FunctionDef:
+def inlined(repo, f, depth: int = 2, kinds=("nested", "private", "method")) -> ast.FunctionDef:
     """copy of f.node with eligible helper calls expanded (see module docstring)"""
     # the cache lives on the repository object: another Repo (another overlay) must never see these trees
     cache = repo.__dict__.setdefault("_inline_cache", {})
-    key = (f.qname, depth)
+    key = (f.qname, depth, tuple(kinds))
     if key in cache:
         return cache[key]
     node = copy.deepcopy(f.node)
-    inl = _Inliner(repo, f, depth)
+    inl = _Inliner(repo, f, depth, kinds)
     for _ in range(depth):
         inl.changed = False
         node.body = inl.block(node.body, [f.qname], depth)
@@ -457,9 +459,9 @@ def inlined(repo, f, depth: int = 2) -> ast.FunctionDef:
     return node
 
 
-def with_inlined(repo, f, depth: int = 2):
+def with_inlined(repo, f, depth: int = 2, kinds=("nested", "private", "method")):
     """a shallow copy of the FunctionInfo whose `node` is the inlined copy (for rules that take a FunctionInfo)"""
-    node = inlined(repo, f, depth)
+    node = inlined(repo, f, depth, kinds)
     if node is f.node:
         return f
     f2 = copy.copy(f)
